@@ -826,6 +826,9 @@ func selftest(ids []string, n int) int {
 		}
 		var ref map[string]uint64
 		procs := []int{1, 4, 16, 1, 16, 4}
+		for len(procs) < envInt("VERIF_SELFTEST_PROCS", 6) {
+			procs = append(procs, []int{1, 4, 16}[len(procs)%3]) // many same-seed processes catch rare divergences a pair would miss
+		}
 		var mu sync.Mutex
 		var wg sync.WaitGroup
 		outs := make([]map[string]uint64, len(procs))
